@@ -12,7 +12,7 @@ for d in $root/out/*/; do
   [ -z "$pkg" ] && pkg=.
   conf=$($V/lib/confirm_seed.sh $root/repo $d $pkg)
   res=$($V/lib/mutants.sh $prop $d/patch.diff | sed 's/^MUTANT [^:]*: *//' | cut -c1-200)
-  for l in a b c d e f g h i j k l m n; do [ -e $V/seeded/$prop-$l ] || break; done
+  for l in a b c d e f g h i j k l m n o p q r s t u v w x y z; do [ -e $V/seeded/$prop-$l ] || break; done
   id=$prop-$l
   mkdir -p $V/seeded/$id; cp $d/patch.diff $d/demo_test.go $d/README.md $V/seeded/$id/
   python3 - "$id" "$prop" "$pkg" "$conf" "$res" "$round" <<'PY'
